@@ -18,6 +18,19 @@ import types
 Pickler = pickle._Pickler
 
 
+def _sorted_total_order(items):
+    """Sort items, raising TypeError if they are only partially ordered.
+
+    With a partial order (e.g. frozensets, compared by inclusion) the result
+    of sorted depends on the initial order of the items.
+    """
+    sequence = sorted(items)
+    for previous, current in zip(sequence, sequence[1:]):
+        if not previous < current:
+            raise TypeError("items are not totally ordered")
+    return sequence
+
+
 class _ConsistentSet(object):
     """Class used to ensure the hash of Sets is preserved
     whatever the order of its items.
@@ -30,7 +43,7 @@ class _ConsistentSet(object):
             # consistent and orderable.
             # This fails on python 3 when elements are unorderable
             # but we keep it in a try as it's faster.
-            self._sequence = sorted(set_sequence)
+            self._sequence = _sorted_total_order(set_sequence)
         except (TypeError, decimal.InvalidOperation):
             # If elements are unorderable, sorting them using their hash.
             # This is slower but works in any case.
@@ -146,7 +159,7 @@ class Hasher(Pickler):
             # consistent and orderable.
             # This fails on python 3 when keys are unorderable
             # but we keep it in a try as it's faster.
-            Pickler._batch_setitems(self, iter(sorted(items)), *args)
+            Pickler._batch_setitems(self, iter(_sorted_total_order(items)), *args)
         except TypeError:
             # If keys are unorderable, sorting them using their hash. This is
             # slower but works in any case.
